@@ -94,11 +94,32 @@ class CallGraph(object):
             for n in walk_no_defs(f):
                 if isinstance(n, ast.Assign) and isinstance(n.value, ast.Call):
                     r = model.resolve_attr_chain(m, n.value.func)
+                    if r and r[0] == 'func':
+                        r = self._returned_class(r[1], r[2])
                     if r and r[0] == 'class':
                         for t in n.targets:
                             if sa.is_self_attr(t, s):
                                 out[(owner.name, t.attr)] = (r[1], r[2])
         return out
+
+    def _returned_class(self, m, f):
+        """A factory/accessor function that returns a package-class instance held in a module global."""
+        model = self.model
+        for n in walk_no_defs(f):
+            if isinstance(n, ast.Return) and n.value is not None:
+                v = n.value
+                if isinstance(v, ast.Call):
+                    r = model.resolve_attr_chain(m, v.func)
+                    if r and r[0] == 'class':
+                        return r
+                if isinstance(v, ast.Name):
+                    for a in ast.walk(m.tree):
+                        if isinstance(a, ast.Assign) and isinstance(a.value, ast.Call) and \
+                                any(isinstance(t, ast.Name) and t.id == v.id for t in a.targets):
+                            r = model.resolve_attr_chain(m, a.value.func)
+                            if r and r[0] == 'class':
+                                return r
+        return None
 
     def _find_ply_attrs(self):
         """Attributes holding ply objects: ``self.x = yacc.yacc(...)`` / ``lex.lex(...)``."""
@@ -263,7 +284,7 @@ class CallGraph(object):
                         return set([(lm[0].name, lm[0].qualname_of(lm[2]))])
             # fallback by method name (package methods only; dunder and very generic names excluded)
             if fn.attr in self._methods_by_name and not fn.attr.startswith('__') and \
-                    fn.attr not in ('get', 'parse', 'run', 'index', 'count'):
+                    fn.attr not in ('get', 'run', 'index', 'count'):
                 return set(self._methods_by_name[fn.attr])
         return out
 
